@@ -91,6 +91,7 @@ def op_line(o):
     k = o['op']; g = o.get
     if k == 'lookup': a = [ref_h(o['p']), hx(o['name'])]
     elif k == 'forget': a = [ref_h(o['i']), o['count']]
+    elif k == 'batch_forget': a = [x for i, c in o['l'] for x in (ref_h(i), c)]
     elif k == 'getattr': a = [ref_h(o['i']), oref_h(g('h'))]
     elif k == 'setattr': a = [ref_h(o['i']), oref_h(g('h')), o['valid'], o['mode'], o['uid'], o['gid'], o['size'], g('atime', 1000000), g('ansec', 0), g('mtime', 2000000), g('mnsec', 0)]
     elif k == 'mkdir': a = [ref_h(o['p']), hx(o['name']), o['mode'], o['umask'], o['uid'], o['gid']]
@@ -123,6 +124,7 @@ def op_coq(o):
     k = o['op']; g = o.get; B = lambda b: coq_bytes(cname(b))
     if k == 'lookup': return '(SLookup %s %s)' % (ref_c(o['p']), B(o['name']))
     if k == 'forget': return '(SForget %s %d)' % (ref_c(o['i']), o['count'])
+    if k == 'batch_forget': return '(SBatchForget [%s])' % '; '.join('(%s, %d)' % (ref_c(i), c) for i, c in o['l'])
     if k == 'getattr': return '(SGetattr %s %s)' % (ref_c(o['i']), oref_c(g('h')))
     if k == 'setattr': return '(SSetattr %s %s %d %d %d %d %d %d %d %d %d)' % (ref_c(o['i']), oref_c(g('h')), o['valid'], o['mode'], o['uid'], o['gid'], o['size'], g('atime', 1000000), g('ansec', 0), g('mtime', 2000000), g('mnsec', 0))
     if k == 'mkdir': return '(SMkdir %s %s %d %d %d %d)' % (ref_c(o['p']), B(o['name']), o['mode'], o['umask'], o['uid'], o['gid'])
